@@ -479,6 +479,11 @@ PARAM_SPECS = {
     "p": V("p"),
     "q": V("q"),
     "a0": ("Subscript", V("a"), C(0)),
+    # distinct parameters that PRINT alike: the subscript a[0] and a variable named "a[0]", the
+    # look-up s.f and a variable named "s.f" (atoms of the oracle are told apart by structure)
+    "a0v": V("a[0]"),
+    "sf": ("Lookup", V("s"), ("str", "f")),
+    "sfv": V("s.f"),
 }
 
 
